@@ -7,7 +7,10 @@ Inductive hop :=
 | HSub (i : nat)             (* subscriber i connects (its request is in the initial world) *)
 | HLeave (i : nat)           (* the client of subscriber i goes away *)
 | HClose                     (* Hub.Stop *)
-| HRestart.                  (* the process is replaced by a new one on the same history file *)
+| HRestart                   (* the process is replaced by a new one on the same history file *)
+| HStall (i : nat)           (* the client of subscriber i stops reading: the handler's next write blocks *)
+| HResume (i : nat)          (* ... and reads again *)
+| HBurst (t : nat) (first : N) (count : nat).   (* count POSTs in a row: ids first, first+1, ... *)
 
 Section C.
   Variable mt : nat -> N -> bool.
@@ -27,24 +30,59 @@ Section C.
     | _ => w1
     end.
 
-  Definition settle_once (w : world) : world := fold_left settle1 (seq 0 (length (h_subs (w_st w)))) w.
-  Definition settle (w : world) : world := settle_once (settle_once (settle_once w)).
+  (* execution state: the world, the stalled subscribers, and those among them whose handler already holds
+     the one update it is blocked writing *)
+  Record xstate := { x_w : world; x_stalled : list nat; x_inflight : list nat }.
 
-  Definition exec_op (w : world) (o : hop) : world :=
+  Definition memn (i : nat) (l : list nat) : bool := existsb (Nat.eqb i) l.
+
+  Definition settle1x (x : xstate) (i : nat) : xstate :=
+    if memn i (x_stalled x) then
+      if memn i (x_inflight x) then x
+      else
+        (* the handler takes one more update (and blocks writing it), or sees the end of the stream *)
+        let had := match nth_error (h_subs (w_st (x_w x))) i with Some s => match hs_out s with [] => false | _ => true end | None => false end in
+        let w1 := wrun (x_w x) [ARecv i] in
+        let w2 := match phase_of w1 i with
+                  | PLeaving | PRemoved => wrun w1 [ASub i true; ASub i true; ASub i true]
+                  | _ => w1 end in
+        {| x_w := w2; x_stalled := x_stalled x; x_inflight := if had then i :: x_inflight x else x_inflight x |}
+    else {| x_w := settle1 (x_w x) i; x_stalled := x_stalled x; x_inflight := x_inflight x |}.
+
+  Definition settle_once (x : xstate) : xstate := fold_left settle1x (seq 0 (length (h_subs (w_st (x_w x))))) x.
+  Definition settle (x : xstate) : xstate := settle_once (settle_once (settle_once x)).
+  Definition with_w (x : xstate) (w : world) : xstate := {| x_w := w; x_stalled := x_stalled x; x_inflight := x_inflight x |}.
+  Definition without (i : nat) (l : list nat) : list nat := filter (fun j => negb (Nat.eqb j i)) l.
+
+  Fixpoint burst (x : xstate) (t : nat) (u : N) (count : nat) : xstate :=
+    match count with
+    | O => x
+    | S c => burst (settle (with_w x (wrun (x_w x) [APubCheck t; APublish t true]))) t (u + 1) c
+    end.
+
+  Definition exec_op (x : xstate) (o : hop) : xstate :=
+    let w := x_w x in
     match o with
-    | HPub t u => settle (wrun w [APubCheck t; APublish t true])
-    | HSub i => settle (wrun w (repeat (ASub i true) (12 + length (h_db (w_st w)))))
-    | HLeave i => settle (wrun w [ALeave i; ASub i true; ASub i true; ASub i true])
-    | HClose => settle (wrun w [AClose; AClose; AClose])
-    | HRestart => wrun w [ACrash]
+    | HPub t u => settle (with_w x (wrun w [APubCheck t; APublish t true]))
+    | HSub i => settle (with_w x (wrun w (repeat (ASub i true) (12 + length (h_db (w_st w))))))
+    | HLeave i => settle {| x_w := wrun w [ALeave i; ASub i true; ASub i true; ASub i true];
+                            x_stalled := without i (x_stalled x); x_inflight := without i (x_inflight x) |}
+    | HClose => settle (with_w x (wrun w [AClose; AClose; AClose]))
+    | HRestart => {| x_w := wrun w [ACrash]; x_stalled := []; x_inflight := [] |}
+    | HStall i => {| x_w := w; x_stalled := i :: x_stalled x; x_inflight := x_inflight x |}
+    | HResume i => settle {| x_w := w; x_stalled := without i (x_stalled x); x_inflight := without i (x_inflight x) |}
+    | HBurst t u count => burst x t u count
     end.
 
   Definition metrics_of (w : world) : Z * N * N := (h_gauge (w_st w), h_subs_total (w_st w), h_updates_total (w_st w)).
 
-  Fixpoint exec_ops (w : world) (ops : list hop) : world * list (Z * N * N) :=
+  Fixpoint exec_ops (x : xstate) (ops : list hop) : xstate * list (Z * N * N) * list nat :=
     match ops with
-    | [] => (w, [])
-    | o :: ops' => let w1 := exec_op w o in let '(w2, ms) := exec_ops w1 ops' in (w2, metrics_of w1 :: ms)
+    | [] => (x, [], [])
+    | o :: ops' =>
+        let x1 := exec_op x o in
+        let '(x2, ms, ls) := exec_ops x1 ops' in
+        (x2, metrics_of (x_w x1) :: ms, length (h_index (w_st (x_w x1))) :: ls)
     end.
 End C.
 
@@ -60,7 +98,8 @@ Record hub_case := {
   hc_results : list (list (N * bool)); (* per publisher thread: (update, answered 200) *)
   hc_history : option (list N);        (* persistent: ids in the history file at the end *)
   hc_events : list (nat * bool);       (* subscription events found in the history, in order *)
-  hc_metrics : list (Z * N * N) }.     (* gauge, subscribers total, updates total after every operation *)
+  hc_metrics : list (Z * N * N);       (* gauge, subscribers total, updates total after every operation *)
+  hc_listed : list nat }.              (* number of subscribers the transport lists after every operation *)
 
 Definition mt_of (tbl : list (nat * N)) (i : nat) (u : N) : bool :=
   existsb (fun p => Nat.eqb (fst p) i && N.eqb (snd p) u) tbl.
@@ -86,7 +125,9 @@ Definition is_event (u : N) : bool := N.leb 1099511627776 u.
 
 Definition hub_agree (c : hub_case) : bool :=
   let w0 := winit (hc_persistent c) (hc_size c) (hc_reqs c) (hc_pubs c) in
-  let '(w, ms) := exec_ops (mt_of (hc_mt c)) (hc_cap c) (hc_tracking c) w0 (hc_ops c) in
+  let '(x, ms, ls) := exec_ops (mt_of (hc_mt c)) (hc_cap c) (hc_tracking c) {| x_w := w0; x_stalled := []; x_inflight := [] |} (hc_ops c) in
+  let w := x_w x in
+  list_eqb Nat.eqb ls (hc_listed c) &&
   list_eqb sub_obs_eqb (map obs_of (h_subs (w_st w))) (hc_subs c) &&
   list_eqb (list_eqb res_eqb) (map pb_results (w_pubs w)) (hc_results c) &&
   (match hc_history c with
@@ -106,7 +147,9 @@ Record aspec := {
   as_exp : list (nat * sub_obs);   (* expected observation per started subscriber *)
   as_results : list (nat * (N * bool));
   as_events : list (nat * bool);
-  as_gauge : Z; as_total : N; as_updates : N }.
+  as_gauge : Z; as_total : N; as_updates : N;
+  as_pending : list (nat * nat);   (* stalled subscribers: updates delivered since they stopped reading *)
+  as_cut : list nat }.             (* stalled subscribers the hub has cut off (buffer overflow) *)
 
 Fixpoint after_first_N (x : N) (h : list N) : option (list N) :=
   match h with
@@ -130,36 +173,71 @@ Section S.
   Variable persistent tracking : bool.
   Variable size : N.
   Variable reqs : list req.
+  Variable cap : nat.
+
+  Definition mk (a : aspec) hist closed live exp results events gauge total updates pending cut : aspec :=
+    {| as_hist := hist; as_closed := closed; as_live := live; as_exp := exp; as_results := results; as_events := events;
+       as_gauge := gauge; as_total := total; as_updates := updates; as_pending := pending; as_cut := cut |}.
+
+  Definition pending_of (a : aspec) (j : nat) : option nat :=
+    match find (fun p => Nat.eqb (fst p) j) (as_pending a) with Some p => Some (snd p) | None => None end.
+
+  (* deliver update u to connected subscriber j: a stalled subscriber holds one update in its handler and cap in its
+     buffer; the next one cuts it off *)
+  Definition deliver (u : N) (a : aspec) (j : nat) : aspec :=
+    if negb (mt j u) || existsb (Nat.eqb j) (as_cut a) then a
+    else match pending_of a j with
+         | Some n =>
+             if Nat.ltb cap n then
+               mk a (as_hist a) (as_closed a) (as_live a) (as_exp a) (as_results a) (as_events a) (as_gauge a) (as_total a)
+                  (as_updates a) (as_pending a) (j :: as_cut a)
+             else
+               mk a (as_hist a) (as_closed a) (as_live a) (upd_exp (push_recv u) j (as_exp a)) (as_results a) (as_events a)
+                  (as_gauge a) (as_total a) (as_updates a)
+                  (map (fun p => if Nat.eqb (fst p) j then (j, S (snd p)) else p) (as_pending a)) (as_cut a)
+         | None =>
+             mk a (as_hist a) (as_closed a) (as_live a) (upd_exp (push_recv u) j (as_exp a)) (as_results a) (as_events a)
+                (as_gauge a) (as_total a) (as_updates a) (as_pending a) (as_cut a)
+         end.
+
+  Definition fan (a : aspec) (u : N) : aspec := fold_left (deliver u) (as_live a) a.
 
   Definition spec_event (a : aspec) (i : nat) (active : bool) : aspec :=
     if tracking && negb (as_closed a) then
-      {| as_hist := if persistent then truncate size (as_hist a ++ [ev_id i active]) else as_hist a;
-         as_closed := as_closed a; as_live := as_live a;
-         as_exp := fold_left (fun e j => if mt j (ev_id i active) then upd_exp (push_recv (ev_id i active)) j e else e) (as_live a) (as_exp a);
-         as_results := as_results a; as_events := as_events a ++ [(i, active)];
-         as_gauge := as_gauge a; as_total := as_total a; as_updates := as_updates a |}
+      let a1 := fan a (ev_id i active) in
+      mk a1 (if persistent then truncate size (as_hist a1 ++ [ev_id i active]) else as_hist a1) (as_closed a1) (as_live a1) (as_exp a1)
+         (as_results a1) (as_events a1 ++ [(i, active)]) (as_gauge a1) (as_total a1) (as_updates a1) (as_pending a1) (as_cut a1)
     else a.
+
+  Definition spec_pub (a : aspec) (t : nat) (u : N) : aspec :=
+    if as_closed a then
+      mk a (as_hist a) true (as_live a) (as_exp a) (as_results a ++ [(t, (u, false))]) (as_events a) (as_gauge a) (as_total a)
+         (as_updates a) (as_pending a) (as_cut a)
+    else
+      let a1 := fan a u in
+      mk a1 (if persistent then truncate size (as_hist a1 ++ [u]) else as_hist a1) false (as_live a1) (as_exp a1)
+         (as_results a1 ++ [(t, (u, true))]) (as_events a1) (as_gauge a1) (as_total a1) (as_updates a1 + 1) (as_pending a1) (as_cut a1).
+
+  Fixpoint spec_burst (a : aspec) (t : nat) (u : N) (count : nat) : aspec :=
+    match count with O => a | S c => spec_burst (spec_pub a t u) t (u + 1) c end.
+
+  (* subscriber i is gone (its handler ran shutdown) *)
+  Definition spec_gone (a : aspec) (i : nat) : aspec :=
+    let a1 := mk a (as_hist a) (as_closed a) (filter (fun j => negb (Nat.eqb j i)) (as_live a)) (as_exp a) (as_results a) (as_events a)
+                 (as_gauge a - 1)%Z (as_total a) (as_updates a)
+                 (filter (fun p => negb (Nat.eqb (fst p) i)) (as_pending a)) (filter (fun j => negb (Nat.eqb j i)) (as_cut a)) in
+    spec_event a1 i false.
 
   Definition spec_op (a : aspec) (o : hop) : aspec :=
     match o with
-    | HPub t u =>
-        if as_closed a then
-          {| as_hist := as_hist a; as_closed := true; as_live := as_live a; as_exp := as_exp a;
-             as_results := as_results a ++ [(t, (u, false))]; as_events := as_events a;
-             as_gauge := as_gauge a; as_total := as_total a; as_updates := as_updates a |}
-        else
-          {| as_hist := if persistent then truncate size (as_hist a ++ [u]) else as_hist a;
-             as_closed := false; as_live := as_live a;
-             as_exp := fold_left (fun e j => if mt j u then upd_exp (push_recv u) j e else e) (as_live a) (as_exp a);
-             as_results := as_results a ++ [(t, (u, true))]; as_events := as_events a;
-             as_gauge := as_gauge a; as_total := as_total a; as_updates := as_updates a + 1 |}
+    | HPub t u => spec_pub a t u
+    | HBurst t u count => spec_burst a t u count
     | HSub i =>
         let a1 := spec_event a i true in
         if as_closed a1 then
-          {| as_hist := as_hist a1; as_closed := true; as_live := as_live a1;
-             as_exp := as_exp a1 ++ [(i, {| so_started := true; so_accepted := false; so_resp := None; so_received := []; so_ended := false |})];
-             as_results := as_results a1; as_events := as_events a1;
-             as_gauge := as_gauge a1; as_total := as_total a1; as_updates := as_updates a1 |}
+          mk a1 (as_hist a1) true (as_live a1)
+             (as_exp a1 ++ [(i, {| so_started := true; so_accepted := false; so_resp := None; so_received := []; so_ended := false |})])
+             (as_results a1) (as_events a1) (as_gauge a1) (as_total a1) (as_updates a1) (as_pending a1) (as_cut a1)
         else
           let h := as_hist a1 in
           let '(resp, replay) :=
@@ -174,44 +252,59 @@ Section S.
                   end
                 else (Some None, [])
             end in
-          {| as_hist := h; as_closed := false; as_live := as_live a1 ++ [i];
-             as_exp := as_exp a1 ++ [(i, {| so_started := true; so_accepted := true; so_resp := resp;
-                                            so_received := filter (mt i) replay; so_ended := false |})];
-             as_results := as_results a1; as_events := as_events a1;
-             as_gauge := (as_gauge a1 + 1)%Z; as_total := as_total a1 + 1; as_updates := as_updates a1 |}
-    | HLeave i =>
-        if existsb (Nat.eqb i) (as_live a) then
-          let a1 := {| as_hist := as_hist a; as_closed := as_closed a; as_live := filter (fun j => negb (Nat.eqb j i)) (as_live a);
-                       as_exp := as_exp a; as_results := as_results a; as_events := as_events a;
-                       as_gauge := (as_gauge a - 1)%Z; as_total := as_total a; as_updates := as_updates a |} in
-          spec_event a1 i false
-        else a
+          mk a1 h false (as_live a1 ++ [i])
+             (as_exp a1 ++ [(i, {| so_started := true; so_accepted := true; so_resp := resp;
+                                   so_received := filter (mt i) replay; so_ended := false |})])
+             (as_results a1) (as_events a1) (as_gauge a1 + 1)%Z (as_total a1 + 1) (as_updates a1) (as_pending a1) (as_cut a1)
+    | HLeave i => if existsb (Nat.eqb i) (as_live a) then spec_gone a i else a
     | HClose =>
-        {| as_hist := as_hist a; as_closed := true; as_live := [];
-           as_exp := fold_left (fun e j => upd_exp set_ended j e) (as_live a) (as_exp a);
-           as_results := as_results a; as_events := as_events a;
-           as_gauge := (as_gauge a - Z.of_nat (length (as_live a)))%Z; as_total := as_total a; as_updates := as_updates a |}
+        mk a (as_hist a) true [] (fold_left (fun e j => upd_exp set_ended j e) (as_live a) (as_exp a)) (as_results a) (as_events a)
+           (as_gauge a - Z.of_nat (length (as_live a)))%Z (as_total a) (as_updates a) [] []
     | HRestart =>
-        {| as_hist := as_hist a; as_closed := false; as_live := []; as_exp := as_exp a;
-           as_results := as_results a; as_events := as_events a; as_gauge := 0; as_total := 0; as_updates := 0 |}
+        mk a (as_hist a) false [] (as_exp a) (as_results a) (as_events a) 0%Z 0 0 [] []
+    | HStall i =>
+        if existsb (Nat.eqb i) (as_live a) then
+          mk a (as_hist a) (as_closed a) (as_live a) (as_exp a) (as_results a) (as_events a) (as_gauge a) (as_total a) (as_updates a)
+             ((i, O) :: as_pending a) (as_cut a)
+        else a
+    | HResume i =>
+        if existsb (Nat.eqb i) (as_cut a) then
+          (* it reads what was buffered, sees the end of the stream: the hub has ended it *)
+          spec_gone (mk a (as_hist a) (as_closed a) (as_live a) (upd_exp set_ended i (as_exp a)) (as_results a) (as_events a)
+                        (as_gauge a) (as_total a) (as_updates a) (as_pending a) (as_cut a)) i
+        else
+          mk a (as_hist a) (as_closed a) (as_live a) (as_exp a) (as_results a) (as_events a) (as_gauge a) (as_total a) (as_updates a)
+             (filter (fun p => negb (Nat.eqb (fst p) i)) (as_pending a)) (as_cut a)
     end.
 
-  Fixpoint spec_ops (a : aspec) (ops : list hop) : aspec * list (Z * N * N) :=
+  (* the number of listed subscribers is specified while the hub is open (a stopped hub keeps a stale list) *)
+  Fixpoint spec_ops (a : aspec) (ops : list hop) : aspec * list (Z * N * N) * list (option nat) :=
     match ops with
-    | [] => (a, [])
-    | o :: ops' => let a1 := spec_op a o in let '(a2, ms) := spec_ops a1 ops' in (a2, (as_gauge a1, as_total a1, as_updates a1) :: ms)
+    | [] => (a, [], [])
+    | o :: ops' =>
+        let a1 := spec_op a o in
+        let '(a2, ms, ls) := spec_ops a1 ops' in
+        (a2, (as_gauge a1, as_total a1, as_updates a1) :: ms, (if as_closed a1 then None else Some (length (as_live a1))) :: ls)
     end.
 End S.
 
 Definition a_init_spec : aspec :=
   {| as_hist := []; as_closed := false; as_live := []; as_exp := []; as_results := []; as_events := [];
-     as_gauge := 0; as_total := 0; as_updates := 0 |}.
+     as_gauge := 0; as_total := 0; as_updates := 0; as_pending := []; as_cut := [] |}.
 
 Definition not_started : sub_obs := {| so_started := false; so_accepted := false; so_resp := None; so_received := []; so_ended := false |}.
 
+Fixpoint listed_ok (e : list (option nat)) (o : list nat) : bool :=
+  match e, o with
+  | [], [] => true
+  | x :: e', y :: o' => (match x with Some n => Nat.eqb n y | None => true end) && listed_ok e' o'
+  | _, _ => false
+  end.
+
 Definition hub_spec_ok (c : hub_case) : bool :=
-  let '(a, ms) := spec_ops (mt_of (hc_mt c)) (hc_persistent c) (hc_tracking c) (hc_size c) (hc_reqs c) a_init_spec (hc_ops c) in
+  let '(a, ms, ls) := spec_ops (mt_of (hc_mt c)) (hc_persistent c) (hc_tracking c) (hc_size c) (hc_reqs c) (hc_cap c) a_init_spec (hc_ops c) in
   let expected i := match find (fun p => Nat.eqb (fst p) i) (as_exp a) with Some p => snd p | None => not_started end in
+  listed_ok ls (hc_listed c) &&
   list_eqb sub_obs_eqb (map expected (seq 0 (length (hc_subs c)))) (hc_subs c) &&
   list_eqb (list_eqb res_eqb)
     (map (fun t => map snd (filter (fun p => Nat.eqb (fst p) t) (as_results a))) (seq 0 (length (hc_results c)))) (hc_results c) &&
